@@ -151,6 +151,23 @@ class SharedSpeedWithSources(LogisticWithSources):
                          - st["log_g"].fn((z3.IntVal(0),)))
 
 
+class SharedSpeedNoSources(SharedSpeedWithSources):
+    """SharedSpeedLogisticModel.model_no_sources[i,j,k] = sigmoid(rt_ij + delta_k - log g): the curve with zero space shifts."""
+    target = "leaspy.models.shared_speed_logistic:SharedSpeedLogisticModel.model_no_sources"
+
+    def configs(self):
+        return [dict(sources=False)]
+
+    def setup(self, cx, cfg):
+        from leaspy.models.shared_speed_logistic import SharedSpeedLogisticModel as M
+        d = pop_setup(cx, extra=(("deltas_padded", (f,)), ("log_g", (1,))))
+        d.update(args=(M,), kwargs=dict(rt=WT(d["rt"], d["w"]), metric=d["metric"], deltas_padded=d["deltas_padded"], log_g=d["log_g"]), cls=M)
+        return d
+
+    def formula(self, st, i, j, k):
+        return F_SIGMOID(st["rt"].fn((i, j)) + st["deltas_padded"].fn((k,)) - st["log_g"].fn((z3.IntVal(0),)))
+
+
 class Metrics(Spec):
     """LogisticModel.metric(g) = (g + 1)^2 / g."""
     target = "leaspy.models.logistic:LogisticModel.metric"
@@ -260,7 +277,7 @@ class TimepointsUnmasked(Spec):
         return res
 
 
-UNITS = [TimeReparam(), LogisticWithSources(), LogisticNoSources(), LinearWithSources(), SharedSpeedWithSources(), Metrics(), MetricLinear(), MetricShared(),
+UNITS = [TimeReparam(), LogisticWithSources(), LogisticNoSources(), LinearWithSources(), SharedSpeedWithSources(), SharedSpeedNoSources(), Metrics(), MetricLinear(), MetricShared(),
          TimepointsUnmasked()]
 # "for any parameters": the trajectory is computed on ONE FRESH clone of the model's current state, taken in the call itself, written
 # with the call's ages and individual parameters, and read back from that clone -- nothing is kept from an earlier call (contract
